@@ -1,7 +1,7 @@
 /-
   Sky.Ledger.Supply — block execution preserves the coin supply and the uniqueness of unspent ids.
 -/
-import Sky.Ledger.Lemmas
+import Sky.Ledger.Arb
 namespace Sky.Ledger
 open Sky
 
@@ -36,24 +36,29 @@ theorem contains_false_iff {us : List Ux} {id : Id} : contains us id = false ↔
     have : u.id ≠ id := fun e => h (by rw [← e]; exact List.mem_map_of_mem hu)
     simpa using this
 
-/-- what acceptance of a block by a NON-arbitrating node certifies about the block -/
-theorem accepted_block_facts {s s' : State} {b g : Block} (harb : s.cfg.arb = false)
+/-- what acceptance of a block certifies about the block — in ANY mode (arbitrating publisher or
+ordinary node).  `HashInj`: the transactions of the block have distinct hashes unless identical
+(collision freeness on this finite set); it is only needed to conclude, in arbitrating mode, that the
+arbitrated list whose hashes equal the block's hashes IS the block's list. -/
+theorem accepted_block_facts {s s' : State} {b g : Block} (hinj : HashInj b.txns)
     (hg : s.chain.head? = some g) (h : execSigned s b = .ok s') :
-    b.txns ≠ [] ∧ (∀ t ∈ b.txns, verifyBlockTxn s t = .ok ()) ∧
+    (∀ t ∈ b.txns, verifyBlockTxn s t = .ok ()) ∧
       b.txns.Pairwise (fun a c => sharesInput a c = false) ∧ (outIds b.txns).Nodup ∧
+      (∀ x ∈ outIds b.txns, contains s.unspent x = false) ∧
       s'.unspent = keptPool s b ++ blockCreated b := by
   obtain ⟨_, hpb, _, s1, hs1, hu, _⟩ := execSigned_ok h
-  obtain ⟨_, _, ⟨txns, hpt, _⟩, _⟩ := processBlock_ok hg hpb
-  obtain ⟨hr, hne, hv, hp, hn, _⟩ := processTransactions_nonarb harb hpt
+  obtain ⟨_, _, ⟨txns, hpt, hsame⟩, _⟩ := processBlock_ok hg hpb
+  obtain ⟨hv, hp, hn, hf⟩ := processTransactions_facts hpt
+  have heq : txns = b.txns := same_of_sameTxns hinj (fun t ht => (hv t ht).1) hsame
+  subst heq
   have := unspentProcessBlock_ok hs1
-  exact ⟨hne, hv, hp, hn, by rw [hu]; exact this.2.2.1⟩
+  exact ⟨fun t ht => (hv t ht).2, hp, hn, hf, by rw [hu]; exact this.2.2.1⟩
 
-theorem exec_preserves_inv {s s' : State} {b g : Block} {G : Nat} (harb : s.cfg.arb = false)
+theorem exec_preserves_inv {s s' : State} {b g : Block} {G : Nat} (hinj : HashInj b.txns)
     (hg : s.chain.head? = some g) (hinv : Inv s G) (hwf : ∀ t ∈ b.txns, WfSound t)
     (h : execSigned s b = .ok s') : Inv s' G := by
+  obtain ⟨hv, hp, hn, _, _⟩ := accepted_block_facts hinj hg h
   obtain ⟨_, hpb, _, s1, hs1, hu, _⟩ := execSigned_ok h
-  obtain ⟨_, _, ⟨txns, hpt, _⟩, _⟩ := processBlock_ok hg hpb
-  obtain ⟨_, _, hv, hp, hn, _⟩ := processTransactions_nonarb harb hpt
   obtain ⟨⟨spent, hsp, _⟩, htw, hun, _⟩ := unspentProcessBlock_ok hs1
   obtain ⟨hnd, hsum⟩ := hinv
   -- every transaction's inputs exist and balance its outputs
